@@ -294,6 +294,7 @@ type program struct {
 	marks   bool              // output has the form A#B#…: A (value of the first filter observed before the second ran) must equal B (observed after)
 	noOut   bool              // output may legitimately differ between two renders (clock)
 	touches string            // what the program is about (class label)
+	big     *bigSpec          // family 6: the context is one big container (big.go) instead of mkContext()
 }
 
 var filters = []string{"default", "escape", "e", "upper", "lower", "trim", "raw", "length", "count", "join", "split", "date", "url_encode", "capitalize", "title",
@@ -391,6 +392,7 @@ func programs(thorough bool, add func(program)) {
 		}
 	}
 	collisionPrograms(add)
+	bigPrograms(thorough, add)
 	chainPrograms(thorough, add)
 }
 
@@ -590,8 +592,13 @@ func runProgram(p program) *vlib.Outcome {
 		o.Counters["not_a_program_"+p.family] = 1
 		return o // not a program of the language: nothing rendered, nothing to check
 	}
-	ctx := mkContext()
-	before := pristine()
+	var ctx map[string]interface{}
+	var before string
+	if p.big != nil {
+		ctx, before = mkBigContext(*p.big), pristineBig(*p.big)
+	} else {
+		ctx, before = mkContext(), pristine()
+	}
 	out1, err1 := e.Render("t", ctx)
 	after1 := snapshot(ctx)
 	out2, err2 := e.Render("t", ctx)
